@@ -130,3 +130,121 @@ def rule_try_count(cx, tier):
         return r
     r.floor("recursive compile calls in try-counting methods", n_rec, 3)
     return r
+
+
+# ---------------------------------------------------------------------------------------------
+# R-FINALLY-CATCH (C04): code compiled between the catch entry and the finally block runs under a catch point
+
+def _try_events(cx, w, fn):
+    """bb -> 'start' | 'end' | 'catch-entry' for the TryStart / TryEnd emissions of fn and the patch of the catch offset"""
+    emit = (COMP + "push_op", COMP + "push_op_without_span")
+    du = cx.du(fn)
+    ev = {}
+    for c in fn.calls():
+        if c.short in emit and len(c.args) > 1:
+            ops = w.op_variants(fn, c.args[1])
+            if ops and ops <= TRY_OPEN:
+                ev[c.bb] = "start"
+            elif ops and ops <= TRY_CLOSE:
+                ev[c.bb] = "end"
+    for bb, e in list(ev.items()):
+        if e != "start":
+            continue
+        b = fn.call_at(bb).target
+        ph = None
+        for _ in range(6):
+            c2 = fn.call_at(b) if b is not None else None
+            if c2 is None:
+                break
+            if c2.short == COMP + "push_offset_placeholder":
+                ph = c2
+                break
+            b = c2.target
+        if ph is None:
+            continue
+        for c2 in fn.calls():
+            if c2.short == COMP + "update_offset_placeholder" and len(c2.args) > 1:
+                l = op_base(c2.args[1])
+                rr = du.root(l, through_calls=("Try::branch",)) if l is not None else None
+                if rr is not None and rr[0] == "call" and rr[1].bb == ph.bb:
+                    ev[c2.bb] = "catch-entry"
+    return ev
+
+
+def rule_finally_catch(cx, tier):
+    r = RuleResult("R-FINALLY-CATCH",
+                   "`finally` runs on every path only if every piece of code between the catch entry and the finally block "
+                   "runs under a catch point: the VM leaves a frame on an error unless a catch point is registered, and the "
+                   "finally block is ordinary code at the end of the try expression.  So at each recursive compile call of "
+                   "compile_try_expression after the catch entry (catch argument checks, catch bodies) the emitted code "
+                   "must have a catch point registered (a second TryStart whose handler runs the finally block and "
+                   "rethrows), unless the call compiles the finally block itself")
+    from .enc import Writer
+    w = Writer(cx)
+    F = cx.F
+    fn = cx.need_fn(COMP + "compile_try_expression")
+    cfg = cx.cfg(fn)
+    names = {fn.local_name(l) for l in range(len(fn.raw.get("locals", []))) } if hasattr(fn, "raw") else set()
+    emit = (COMP + "push_op", COMP + "push_op_without_span")
+    # a VM-side mechanism (an op that registers a finally handler) would move the obligation out of the compiler
+    for g in w.fns:
+        for c in g.calls():
+            if c.short in emit and len(c.args) > 1 and any("Finally" in o for o in (w.op_variants(g, c.args[1]) or ())):
+                r.undecided.append("the instruction set has a Finally op: finally handling is no longer plain emitted control "
+                                   "flow; the compiler clause is not decided")
+                return r
+    ev = _try_events(cx, w, fn)
+    require(any(e == "catch-entry" for e in ev.values()), "R-FINALLY-CATCH: catch entry of compile_try_expression not found")
+    cn = cx.need_fn(COMP + "compile_node")
+    recursive = cx.cg.reach_set({cn.name})
+    rec = {}
+    for c in fn.calls():
+        if c.bb in ev or fn.blocks[c.bb].cleanup or c.bb not in cfg.reach:
+            continue
+        tg = [t for t in cx.cg.targets(c) if t in F.fns]
+        if c.short.startswith(COMP) and c.short not in emit and any(t in recursive for t in tg):
+            rec[c.bb] = c
+    # the compile call of the finally block itself is the last one: no other recursive compile call can follow it
+    terminal = {bb for bb in rec if not any(o != bb and o in cfg.reachable_after(bb) for o in rec) and
+                not (bb in cfg.reachable_after(bb))}
+    r.floor("recursive compile calls in compile_try_expression", len(rec), 3)
+    bad = {}
+
+    # the obligation exists only for try expressions that have a finally block, and a repair will register the second
+    # catch point under that condition: a call is reported only if *no* path reaches it with a catch point registered
+    states = {}
+
+    def transfer(bb, st):
+        registered, after_catch = st
+        if bb in rec and bb not in terminal and after_catch:
+            states.setdefault(bb, set()).add(registered)
+        e = ev.get(bb)
+        if e == "start":
+            registered = True
+        elif e == "catch-entry":
+            registered, after_catch = True, True
+        elif e == "end":
+            registered = False
+        return (registered, after_catch)
+
+    ex = Explorer(cx, fn)
+    n = ex.run((False, False), transfer, lambda bb, st, pathf: None)
+    for bb, sts in states.items():
+        if sts == {False}:
+            bad.setdefault(rec[bb].short, (bb, rec[bb]))
+    r.instances += len(rec)
+    r.nontrivial += len(rec) - len(terminal)
+    r.analysed = {"recursive_compile_calls": len(rec), "of_which_compile_the_finally_block": len(terminal), "states": n,
+                  "unprotected_after_catch_entry": sorted(s.rsplit("::", 1)[-1] for s in bad)}
+    r.sample({"fn": fn.qual, "events": {line_of(fn, b): e for b, e in sorted(ev.items())},
+              "unprotected": {s.rsplit("::", 1)[-1]: c.line for s, (b, c) in bad.items()}})
+    if ex.truncated:
+        r.undecided.append(f"{fn.qual}: state space truncated")
+    if bad:
+        first = min(bad.values(), key=lambda x: x[1].line)
+        r.add(Finding("R-FINALLY-CATCH", fn.qual, "catch-blocks:no-catch-point",
+                      f"the code compiled after the catch entry ({', '.join(sorted(s.rsplit('::', 1)[-1] for s in bad))}; first at line "
+                      f"{first[1].line}) runs with no catch point registered: an error thrown inside a catch block -- or the "
+                      f"rethrow of a value that no catch block accepts -- leaves the try expression without running its "
+                      f"`finally` block", fn.file, first[1].line))
+    return r
